@@ -195,7 +195,7 @@ FinishVerify(r) ==
   /\ tr' = [tr EXCEPT !.V = @ \o r.ops]
   /\ res' = [res EXCEPT !.V = r.res]
   /\ degen' = (degen \/ r.degenerate)
-  /\ out' = NoOut
+  /\ out' = [NoOut EXCEPT !.ref = r.alg]
   /\ ph' = [ph EXCEPT !.V = "done"]
 
 VerifyFinish(cap, ch) ==
@@ -205,7 +205,7 @@ VerifyFinish(cap, ch) ==
 
 VerifyBoth(r1, r2) ==
   IF r1.res # ""
-  THEN /\ FinishVerify([res |-> r1.res, ops |-> r1.ops, degenerate |-> FALSE])
+  THEN /\ FinishVerify([res |-> r1.res, ops |-> r1.ops, degenerate |-> FALSE, alg |-> << >>])
        /\ UNCHANGED << env, cs, mid, wire, sent, cberr >>
   ELSE /\ cs.V.ndefer = 0
        /\ FinishVerify([r2 EXCEPT !.ops = r1.ops \o r2.ops])
